@@ -32,7 +32,7 @@ template <typename Comparator>
 class CS_IfSwap
 {
 public:
-    CS_IfSwap(Comparator cmp) : cmp_(cmp)
+    CS_IfSwap(Comparator cmp = Comparator()) : cmp_(cmp)
     {
     }
 
